@@ -31,6 +31,9 @@ class Case:
         return "\n".join(self.lines) + "\n"
 
 
+MISMATCH_LIMIT = 24
+
+
 class Ctx:
     def __init__(self, prop, tier, seed):
         self.prop, self.tier, self.seed = prop, tier, seed
@@ -49,8 +52,10 @@ class Ctx:
         self.search_mode = False   # True when an obligation or tie broke: search harder for a failing input
 
     def stop(self):
-        """enough has been found: one concrete violation (or two disagreements) ends the exploration"""
-        return len(self.oracle_failures) >= 1 or len(self.mismatches) >= 2
+        """enough has been found: one concrete violation ends the exploration.  Disagreements between model and
+        implementation alone do not end it at once: the cases that follow (corpus, generated) are the search for an
+        input on which the property itself fails; the search is cut after MISMATCH_LIMIT disagreeing cases"""
+        return len(self.oracle_failures) >= 1 or len(self.mismatches) >= MISMATCH_LIMIT
 
     def quick(self):
         return self.tier == "quick"
